@@ -20,8 +20,14 @@ BURN = {"code", "reqobj", "vpnonce", "redirect"}
 TTL_FACT = {"code": "ttl_oauthCodeStore", "reqobj": "ttl_authzRequestObjectStore", "vpnonce": "ttl_oauthNonceStore",
             "redirect": "ttl_userRedirectStore", "s2s": "ttl_s2sNonceStore", "jti": "ttl_useNonceOnceStore"}
 
-REQUIRED = ["at_most_once_atomic", "at_most_one_success_atomic", "at_most_one_success_today", "two_success_witness",
-            "fact_consumer_calls", "fact_store_users", "fact_prefixes_distinct", "fact_gad_atomic_today"]
+REQUIRED = ["at_most_once_atomic", "at_most_one_success_atomic", "at_most_one_success_today",
+            "mark_successes_separated", "mark_at_most_once_within_ttl", "mark_at_most_once_within_ttl_today",
+            "dead_never_honoured", "dead_after_ttl", "code_dead_after_failed_attempt",
+            "two_success_witness", "two_success_witness_mark", "at_most_once_fails_without_atomicity",
+            "at_most_once_partial", "mark_separated_partial",
+            "nonce_covers_window", "replay_window_empty_today", "s2s_no_replay_inside_window", "program_matches_api_calls",
+            "fact_consumer_calls", "fact_store_users", "fact_prefixes_distinct", "fact_gad_atomic_today",
+            "fact_mark_atomic_today", "fact_session_store_shapes"]
 
 
 def oracle(op, line, facts):
@@ -90,7 +96,7 @@ def run(ctx):
             ctx.oblige("harness-builds:" + name, False, ctx.harness_error[-1500:])
             continue
         ctx.oblige("harness-builds:" + name, True)
-        env = {}
+        env = {"VERIF_C05_VALIDITY": facts.get("s2sMaxPresentationValidity", 5), "VERIF_C05_SKEW": facts.get("verifierMaxSkew", 5)}
         if ctx.replay:
             env["VERIF_REPLAY"] = os.path.abspath(ctx.replay)
         else:
@@ -117,7 +123,7 @@ def run(ctx):
         bad += [base + k for k in b1]
 
     # ---- direct property oracle on the implementation's own outputs
-    n_bad, seen = 0, set()
+    n_bad, seen, n_window = 0, set(), 0
     kinds, sizes, backends, succ_hist = Counter(), Counter(), Counter(), Counter()
     distinct = set()
     interleaved = 0
@@ -125,6 +131,20 @@ def run(ctx):
         if i >= len(ops) or not ops[i] or line is None:
             continue
         op = json.loads(ops[i])
+        if op.get("op") == "window":
+            # replay strictly inside the acceptance window of the presentation, yet the nonce check passes a second time
+            n_window += 1
+            win = op["validity"] + 2 * op["skew"]
+            if ("accept1=true accept2=true" in line and "nonce1=ok nonce2=ok" in line and "maxvalidity=ok" in line
+                    and op["replay"] - op["first"] < win):
+                n_bad += 1
+                sig = "C05:s2s:iam:redis:nonce-forgotten-inside-acceptance-window"
+                if sig not in seen:
+                    seen.add(sig)
+                    ctx.violation(sig, f"a JSON-LD presentation (validity {op['validity']} s, skew {op['skew']} s) first used at window offset {op['first']} s is accepted "
+                                  f"again at offset {op['replay']} s: still inside its acceptance window of {win} s, but the nonce is already forgotten: {line}",
+                                  "s2s_nonce_window.jsonl", ops[i])
+            continue
         if op.get("op") != "run":
             continue
         ths = op["threads"]
@@ -165,6 +185,7 @@ def run(ctx):
                        "client/state, missing parameter, failing PKCE/method), secret present / absent / already used, back-ends go-cache, go-cache with "
                        "strict Delete (memcached emulation), redis (miniredis); plus sequential replays around the TTL with clock control (miniredis). "
                        "One step = one underlying Get/Set/Delete of the real store. distinct_nontrivial = runs whose schedule really interleaves two threads")
+    ctx.cov["window_probes"] = n_window
     ctx.cov["input_distribution"] = {"threads_per_run": dict(sorted(sizes.items())), "kinds": dict(kinds), "backends": dict(backends),
                                      "success_count_histogram": dict(succ_hist), "distinct_runs": len(distinct)}
     ctx.cov["samples"] = [ops[0][:300] if ops else "", impl[0][:300] if impl else ""]
